@@ -1002,7 +1002,7 @@ def main():
                 rp = '-'
                 if not a.no_evidence:
                     rp = write_replay(pid, q_obl[0], obl[q_obl[0]], [{'message': 'function quarantined: its annotations no longer apply to the changed code'}], vr, witness)
-                print('VIOLATION property=%s replay=%s stand-in=scenarios (the changed function %s can no longer be verified; concrete failing run: %s)' % (pid, rp, obl[q_obl[0]]['fn'], witness[:200]))
+                print('VIOLATION property=%s replay=%s stand-in=%s (the changed function %s can no longer be verified; concrete failing run: %s)' % (pid, rp, witness_tool(pid, witness), obl[q_obl[0]]['fn'], witness[:200]))
                 prc = 1
             elif q_obl and prc == 0 and not new:
                 inconclusive = list(inconclusive) + ['%d obligation(s) of this property live in function(s) whose annotations no longer apply to the changed code (%s); no concrete failing run found: undecided'
@@ -1034,7 +1034,7 @@ def main():
                                        'verifier': 'bounded execution of the real code', 'counterexample': w,
                                        'replay_cmd': 'cd /verif/replay && cargo run --offline -q --release --bin %s -- %s' % (witness_tool(pid, w), pid),
                                        'verifier_output': [{'message': x} for x in ana['inconclusive'][:5]]}, f, indent=1)
-                    print('VIOLATION property=%s replay=%s stand-in=scenarios (changed code is outside the verifier\'s reach; concrete failing run: %s)' % (pid, rp, w[:200]))
+                    print('VIOLATION property=%s replay=%s stand-in=%s (changed code is outside the verifier\'s reach; concrete failing run: %s)' % (pid, rp, witness_tool(pid, w), w[:200]))
                     prc = 1
             if undecided_here and prc == 0 and not new and pid in WITNESS_PROPS:
                 # obligations of this property are undecided (uncontracted helper hides facts, failure inside a new helper,
